@@ -981,7 +981,7 @@ func scalarBasis() []ScalarJ {
 		{K: "string", S: "a"}, {K: "string", S: ""}, {K: "string", S: "é/日本"}, {K: "string", S: "\xff"}, {K: "string", S: "a\xc3"},
 		{K: "string", S: "\xed\xa0\x80"}, {K: "string", S: "\xf4\x90\x80\x80"}, {K: "string", S: "\xc0\xaf"}, {K: "string", S: "\xf0\x9f\x98\x80"},
 		{K: "string", S: "\xe0\x9f\xbf"}, {K: "string", S: "\xef\xbf\xbd"}, {K: "string", S: "\xf4\x8f\xbf\xbf"},
-		{K: "int", I: -5}, {K: "int", I: math.MaxInt64}, {K: "int8", I: -128}, {K: "int8", I: 127}, {K: "int16", I: -32768}, {K: "int32", I: math.MinInt32},
+		{K: "int", I: -5}, {K: "int", I: math.MaxInt64}, {K: "int8", I: -128}, {K: "int8", I: 127}, {K: "int8", I: -1}, {K: "int16", I: -1}, {K: "int32", I: -1}, {K: "int16", I: 32767}, {K: "int32", I: math.MaxInt32}, {K: "int16", I: -32768}, {K: "int32", I: math.MinInt32},
 		{K: "int64", I: math.MinInt64}, {K: "int64", I: 0},
 		{K: "uint", U: math.MaxUint64}, {K: "uint8", U: 255}, {K: "uint16", U: 65535}, {K: "uint32", U: math.MaxUint32}, {K: "uint64", U: math.MaxUint64}, {K: "uint64", U: 0},
 		{K: "float32", Bits: f32(1.5)}, {K: "float32", Bits: f32(0.1)}, {K: "float32", Bits: 0}, {K: "float32", Bits: 0x80000000}, {K: "float32", Bits: 1},
@@ -1026,10 +1026,22 @@ func randScalar(r *vh.Rand, depth int) ScalarJ {
 		if r.Chance(1, 2) {
 			x.I = int64(r.U64())
 		}
+	case "int8":
+		x.I = int64(int8(r.U64()))
+	case "int16":
+		x.I = int64(int16(r.U64()))
+	case "int32":
+		x.I = int64(int32(r.U64()))
 	case "uint64", "uint":
 		if r.Chance(1, 2) {
 			x.U = r.U64()
 		}
+	case "uint8":
+		x.U = uint64(uint8(r.U64()))
+	case "uint16":
+		x.U = uint64(uint16(r.U64()))
+	case "uint32":
+		x.U = uint64(uint32(r.U64()))
 	}
 	return x
 }
